@@ -268,23 +268,22 @@ Qed.
 Definition invB (tr : list (op * res)) (h : handler) : Prop :=
   let a := hApp h in
   let x := tHist (aTr a) in
+  invA tr h /\
   0 <= aIgnoreBelow a /\
-  (deletedBelow x = aIgnoreBelow a \/ (deletedBelow x = rph_InvalidPacketNumber /\ aIgnoreBelow a = 0)) /\
+  (aIgnoreBelow a <= deletedBelow x \/ (deletedBelow x = rph_InvalidPacketNumber /\ aIgnoreBelow a = 0)) /\
   (forall p r, In (Ignore p, r) tr -> p <= aIgnoreBelow a) /\
   aMaxAckDelay a = rph_MaxAckDelay.
 
 Lemma step_app : forall h o,
   let a := hApp h in
   let a' := hApp (fst (step h o)) in
-  (aIgnoreBelow a' = aIgnoreBelow a /\ aMaxAckDelay a' = aMaxAckDelay a /\
-   deletedBelow (tHist (aTr a')) = deletedBelow (tHist (aTr a)) /\ (forall p, o <> Ignore p)) \/
+  (aIgnoreBelow a' = aIgnoreBelow a /\ aMaxAckDelay a' = aMaxAckDelay a /\ (forall p, o <> Ignore p)) \/
   (exists p, o = Ignore p /\ a' = app_ignore_below a p).
 Proof.
   intros h o. cbn zeta.
   assert (Hsame : forall h', hApp h' = hApp h -> (forall p, o <> Ignore p) ->
     (aIgnoreBelow (hApp h') = aIgnoreBelow (hApp h) /\
      aMaxAckDelay (hApp h') = aMaxAckDelay (hApp h) /\
-     deletedBelow (tHist (aTr (hApp h'))) = deletedBelow (tHist (aTr (hApp h))) /\
      (forall p, o <> Ignore p)) \/
     (exists p, o = Ignore p /\ hApp h' = app_ignore_below (hApp h) p)).
   { intros h' E2 E3. left. rewrite E2. auto. }
@@ -295,13 +294,12 @@ Proof.
                     | Panic3 => (h, RPanic)
                     | _ => (mkH (hInitial h) (hHandshake h) a' low, res_of3 r)
                     end) in
-      aIgnoreBelow (hApp hh) = aIgnoreBelow (hApp h) /\ aMaxAckDelay (hApp hh) = aMaxAckDelay (hApp h) /\
-      deletedBelow (tHist (aTr (hApp hh))) = deletedBelow (tHist (aTr (hApp h)))).
+      aIgnoreBelow (hApp hh) = aIgnoreBelow (hApp h) /\ aMaxAckDelay (hApp hh) = aMaxAckDelay (hApp h)).
     { intros low. cbn zeta.
       destruct (app_recv_hist (hApp h) pn ecn t ae) as [[Hp Hst] | (Hp & Hh & Hi & Hm)];
         destruct (app_recv (hApp h) pn ecn t ae) as [a' r]; cbn [fst snd] in *.
       - subst r. cbn [fst]. auto.
-      - destruct r; try contradiction; cbn [fst hApp]; rewrite Hh, Hi, Hm, hist_recv_db; auto. }
+      - destruct r; try contradiction; cbn [fst hApp]; rewrite Hi, Hm; auto. }
     unfold h_recv.
     destruct (lvl =? rph_EncInitial).
     { destruct (hInitial h); [destruct (tr_recv t0 pn ecn ae) |]; (apply Hsame; [reflexivity | discriminate]). }
@@ -310,9 +308,9 @@ Proof.
     destruct (lvl =? rph_Enc0RTT).
     { destruct (negb (hLowest1RTT h =? rph_InvalidPacketNumber) && (pn >? hLowest1RTT h));
         [apply Hsame; [reflexivity | discriminate] |].
-      left. destruct (Happ (hLowest1RTT h)) as (H1 & H2 & H3). repeat split; auto; discriminate. }
+      left. destruct (Happ (hLowest1RTT h)) as (H1 & H2). repeat split; auto; discriminate. }
     destruct (lvl =? rph_Enc1RTT).
-    { left. match goal with |- context [mkH _ _ _ ?low] => destruct (Happ low) as (H1 & H2 & H3) end.
+    { left. match goal with |- context [mkH _ _ _ ?low] => destruct (Happ low) as (H1 & H2) end.
       repeat split; auto; discriminate. }
     apply Hsame; [reflexivity | discriminate].
   - right. exists p. split; reflexivity.
@@ -326,7 +324,7 @@ Proof.
     { destruct (hHandshake h); [destruct (tr_get_ack t) |]; (apply Hsame; [reflexivity | discriminate]). }
     destruct (lvl =? rph_Enc1RTT).
     { left. destruct (app_get_ack_frame (hApp h) now only) as (Hh & Hi & Hm & _).
-      destruct (app_get_ack (hApp h) now only) as [a' f]. cbn [fst hApp] in *. rewrite Hh, Hi, Hm.
+      destruct (app_get_ack (hApp h) now only) as [a' f]. cbn [fst hApp] in *. rewrite Hi, Hm.
       repeat split; auto; discriminate. }
     apply Hsame; [reflexivity | discriminate].
   - apply Hsame; [reflexivity | discriminate].
@@ -339,27 +337,43 @@ Qed.
 
 Lemma invB_init : invB [] newHandler.
 Proof.
-  unfold invB. cbn. split; [lia | split; [right; split; reflexivity | split; [intros p r [] | reflexivity]]].
+  unfold invB. split; [apply invA_init |]. cbn.
+  split; [lia | split; [right; split; reflexivity | split; [intros p r [] | reflexivity]]].
 Qed.
 
 Lemma invB_step : forall tr h o, invB tr h -> invB (tr ++ [(o, snd (step h o))]) (fst (step h o)).
 Proof.
-  intros tr h o (B1 & B2 & B3 & B4). unfold invB. cbn zeta.
-  destruct (step_app h o) as [(E1 & E2 & E3 & E4) | (p & Ho & E)].
-  - rewrite E1, E2, E3. repeat split; auto.
-    intros p r Hin. apply in_app_or in Hin as [Hin | [Hin | []]]; [eauto |].
-    inversion Hin; subst. exfalso. now apply (E4 p).
+  intros tr h o (HA & B1 & B2 & B3 & B4). unfold invB. cbn zeta. split; [now apply invA_step |].
+  destruct (HA 2%nat _ eq_refl) as (Hok & _).
+  (* how the application data history moved *)
+  remember (tHist (aTr (hApp (fst (step h o))))) as y eqn:Hy.
+  assert (Hyy : hist_of (fst (step h o)) 2%nat = Some y) by (subst y; reflexivity).
+  destruct (step_hist h o 2%nat y Hyy) as (x & Hx & Htr).
+  cbn [hist_of] in Hx. inversion Hx; subst x. clear Hx.
+  destruct (step_app h o) as [(E1 & E2 & E4) | (p & Ho & E)].
+  - rewrite E1, E2. split; [assumption | split; [| split; [| assumption]]].
+    + destruct Htr as [| pn ecn lvl t ae Ho Hsp | p Ho Hsp].
+      * exact B2.
+      * pose proof (hist_recv_db_le (tHist (aTr (hApp h))) pn Hok) as Hle.
+        destruct B2 as [B2 | [B2 B2']]; [left; lia |].
+        destruct (Z.eq_dec (deletedBelow (fst (hist_recv (tHist (aTr (hApp h))) pn))) rph_InvalidPacketNumber) as [Ed | Ed];
+          [right; split; assumption | left; unfold rph_InvalidPacketNumber in *; lia].
+      * exfalso. now apply (E4 p).
+    + intros p r Hin. apply in_app_or in Hin as [Hin | [Hin | []]]; [eauto |].
+      inversion Hin; subst. exfalso. now apply (E4 p).
   - rewrite E. subst o. unfold app_ignore_below.
     destruct (Z.leb_spec p (aIgnoreBelow (hApp h))) as [Hle | Hgt].
-    + repeat split; auto. intros p' r Hin. apply in_app_or in Hin as [Hin | [Hin | []]]; [eauto |].
+    + subst y. rewrite E. unfold app_ignore_below. destruct (Z.leb_spec p (aIgnoreBelow (hApp h))); [| lia].
+      split; [assumption | split; [exact B2 | split; [| assumption]]].
+      intros p' r Hin. apply in_app_or in Hin as [Hin | [Hin | []]]; [eauto |].
       inversion Hin; subst. assumption.
-    + cbn [aIgnoreBelow aTr tHist aMaxAckDelay]. unfold hist_delete_below.
-      assert (Hdb : (p <? deletedBelow (tHist (aTr (hApp h)))) = false).
-      { apply Z.ltb_ge. unfold rph_InvalidPacketNumber in *. lia. }
-      rewrite Hdb. cbn [deletedBelow]. repeat split; auto; try lia.
-      intros p' r Hin. apply in_app_or in Hin as [Hin | [Hin | []]].
-      * specialize (B3 _ _ Hin). lia.
-      * inversion Hin; subst. lia.
+    + subst y. rewrite E. unfold app_ignore_below. destruct (Z.leb_spec p (aIgnoreBelow (hApp h))); [lia |].
+      cbn [aIgnoreBelow aTr tHist aMaxAckDelay]. unfold hist_delete_below.
+      split; [lia | split; [| split; [| assumption]]].
+      * destruct (Z.ltb_spec p (deletedBelow (tHist (aTr (hApp h))))); cbn [deletedBelow]; left; lia.
+      * intros p' r Hin. apply in_app_or in Hin as [Hin | [Hin | []]].
+        -- specialize (B3 _ _ Hin). lia.
+        -- inversion Hin; subst. lia.
 Qed.
 
 Lemma invB_run : forall ops, invB (trace newHandler ops) (fst (run newHandler ops)).
@@ -539,15 +553,18 @@ Proof.
   - assert (Hacc : accepted tr sp q) by (exists ecn, lvl, t, ae; auto).
     destruct Htr as [| pn' ecn' lvl' t' ae' Ho Hsp' | p Ho Hsp'].
     + now apply (HC sp x q).
-    + rewrite hist_recv_db in Hdb. destruct (HC sp x q Hx Hacc Hdb) as (q' & Hle & Hq').
+    + pose proof (hist_recv_db_le x pn' Hok) as Hmono.
+      destruct (HC sp x q Hx Hacc ltac:(lia)) as (q' & Hle & Hq').
       destruct (hist_recv_keeps_above x pn' q' Hok (or_introl Hq')) as (q'' & Hle' & Hq'').
       exists q''. split; [lia | assumption].
     + pose proof (hist_delete_below_db x p) as Hmono.
       destruct (HC sp x q Hx Hacc) as (q' & Hle & Hq'); [lia |].
       exists q'. split; [assumption |]. apply hist_delete_below_keeps; auto. lia.
   - inversion Hin as [[Ho Hr]]. subst o.
-    destruct (step_recv_ok h q ecn lvl t ae sp y Hr Hsp Hy) as (x' & Hx' & Hy' & _).
-    rewrite Hx in Hx'. inversion Hx'; subst x'. subst y. rewrite hist_recv_db in Hdb.
+    destruct (step_recv_ok h q ecn lvl t ae sp y Hr Hsp Hy) as (x' & Hx' & Hy' & Hnew).
+    rewrite Hx in Hx'. inversion Hx'; subst x'. subst y.
+    assert (Hdbx : deletedBelow x <= q).
+    { unfold hist_recv in Hnew. destruct (Z.ltb_spec q (deletedBelow x)); [discriminate | assumption]. }
     destruct (hist_recv_keeps_above x q q Hok) as (q'' & Hle' & Hq''); [right; auto |].
     exists q''. auto.
 Qed.
@@ -563,26 +580,6 @@ Lemma backward_first_largest : forall x q, hist_ok x -> inR q (ranges x) ->
 Proof.
   intros x q ((hi & Hwf) & _) Hq. unfold backward.
   destruct (wfa_le_last_end _ _ _ q Hwf Hq) as (s & e & l' & Hr & Hle). exists s, e, l'. auto.
-Qed.
-
-(** * Invariant E: Initial and Handshake histories are never pruned from below *)
-
-Definition invE (tr : list (op * res)) (h : handler) : Prop :=
-  forall sp x, hist_of h sp = Some x -> sp <> 2%nat -> deletedBelow x = rph_InvalidPacketNumber.
-
-Lemma invE_init : invE [] newHandler.
-Proof. intros sp x H _. apply newHandler_hist in H. now subst x. Qed.
-
-Lemma invE_step : forall tr h o, invE tr h -> invE (tr ++ [(o, snd (step h o))]) (fst (step h o)).
-Proof.
-  intros tr h o HE sp y Hy Hsp.
-  destruct (step_hist h o sp y Hy) as (x & Hx & Htr).
-  destruct Htr as [| pn ecn lvl t ae Ho Hsp' | p Ho Hsp']; [eauto | rewrite hist_recv_db; eauto | contradiction].
-Qed.
-
-Lemma invE_run : forall ops, invE (trace newHandler ops) (fst (run newHandler ops)).
-Proof.
-  intros ops. apply (run_preserves invE invE_step ops [] newHandler invE_init).
 Qed.
 
 (** * Soundness of generated ACK frames *)
@@ -608,14 +605,14 @@ Lemma ack_sound : forall ops lvl now only f,
     Z.of_nat (length (aRanges f)) <= rph_MaxNumAckRanges /\
     (aRanges f <> [] -> validateAckRanges (aRanges f) = true) /\
     (sp = 2%nat -> pn_nonneg ops -> forall q, inR q (aRanges f) -> aIgnoreBelow (hApp h) <= q) /\
-    (forall q, accepted tr sp q -> 0 <= q -> (sp = 2%nat -> aIgnoreBelow (hApp h) <= q) ->
+    (forall q, accepted tr sp q -> (forall x, hist_of h sp = Some x -> deletedBelow x <= q) ->
        exists s l rest, aRanges f = (s, l) :: rest /\ q <= l).
 Proof.
   intros ops lvl now only f h tr Hf.
   destruct (h_get_ack_frame h lvl now only f Hf) as (sp & x & Hsp & Hx & Hr & _).
   destruct (invC_run ops) as (HA & HC). fold h tr in HA, HC.
   destruct (HA sp x Hx) as (Hok & Hs). pose proof Hok as ((hi & Hwf) & Hlen).
-  pose proof (invB_run ops) as (B1 & B2 & _). fold h in B1, B2.
+  pose proof (invB_run ops) as (_ & B1 & B2 & _). fold h in B1, B2.
   exists sp. split; [assumption |]. rewrite Hr. unfold backward.
   assert (Hwd : wfd (deletedBelow x - 1) hi (rev (ranges x))) by now apply wfa_wfd_rev.
   split; [| split; [| split; [| split; [| split]]]].
@@ -627,12 +624,7 @@ Proof.
     rewrite inR_rev in Hq. destruct (wfa_bounds _ _ _ _ Hwf Hq) as (Hlo & _).
     destruct B2 as [B2 | [B2 B2']]; [lia |].
     pose proof (recvd_nonneg ops 2%nat q Hnn (Hs q Hq)). lia.
-  - intros q Hacc Hq0 Hib.
-    assert (Hdb : deletedBelow x <= q).
-    { destruct (Nat.eq_dec sp 2) as [E | E].
-      - subst sp. cbn [hist_of] in Hx. inversion Hx; subst x. specialize (Hib eq_refl).
-        destruct B2 as [B2 | [B2 B2']]; unfold rph_InvalidPacketNumber in *; lia.
-      - rewrite (invE_run ops sp x Hx E). unfold rph_InvalidPacketNumber. lia. }
+  - intros q Hacc Hq0. pose proof (Hq0 x Hx) as Hdb.
     destruct (HC sp x q Hx Hacc Hdb) as (q' & Hle & Hq').
     destruct (backward_first_largest x q' Hok Hq') as (s & l & rest & Hb & Hl).
     exists s, l, rest. unfold backward in Hb. split; [assumption | lia].
@@ -649,7 +641,7 @@ Proof.
   destruct (ack_sound ops _ _ _ _ Hf) as (sp & Hsp & _ & _ & _ & _ & Hib & _).
   assert (E : sp = 2%nat) by (cbv in Hsp; now inversion Hsp).
   specialize (Hib E Hnn q Hq).
-  destruct (invB_run ops) as (_ & _ & B3 & _). specialize (B3 _ _ Hin). lia.
+  destruct (invB_run ops) as (_ & _ & _ & B3 & _). specialize (B3 _ _ Hin). lia.
 Qed.
 
 (** handler-level C07_ranges_inv *)
